@@ -50,12 +50,39 @@ QUICK = ["a_opt", "a_req", "b_req", "ab_closed", "ref_base", "ref_closed", "extr
 TRIPLE = ["a_opt", "a_req", "b_req", "ab_closed", "ref_base", "extra_req", "b_enum_xy", "b_enum_yz", "ap_str", "oneof_pq"]
 
 
+# leaf fragments lifted to ONE optional property p of two object branches: allOf[{p: A}, {p: B}] exercises the recursive (member-level) merge
+LIFT = {
+    "int": INT, "str": STR, "enum_ab": {"type": "string", "enum": ["a", "b"]}, "enum_bc": {"type": "string", "enum": ["b", "c"]},
+    "str_max3": {"type": "string", "maxLength": 3}, "nullable_str": {"type": ["string", "null"]},
+    "arr_int": {"type": "array", "items": INT}, "arr_min1": {"type": "array", "minItems": 1}, "tup2": {"type": "array", "items": [INT, INT], "minItems": 2, "maxItems": 2},
+    "obj_x": {"type": "object", "properties": {"x": INT}}, "obj_y_req": {"type": "object", "properties": {"y": STR}, "required": ["y"]},
+    "ref_en": {"$ref": "#/definitions/En"}, "ref_base": {"$ref": "#/definitions/Base"}, "any": {},
+}
+LIFT_QUICK = ["int", "str", "enum_ab", "enum_bc", "arr_int", "arr_min1", "tup2", "obj_x", "ref_en", "any"]
+
+
+def lifted_cases(tier):
+    out = []
+    names = LIFT_QUICK if tier == "quick" else list(LIFT)
+    for a, b in itertools.permutations(names, 2):
+        for req in ((False,) if tier == "quick" else (False, True)):
+            fa = {"type": "object", "properties": {"name": STR, "p": LIFT[a]}, "required": ["name"]}
+            fb = {"type": "object", "properties": {"p": LIFT[b]}}
+            if req:
+                fb["required"] = ["p"]
+            doc = {"definitions": dict(DEFS, T={"allOf": [fa, fb]})}
+            tag = "p:%s%s" % (b, "!" if req else "")
+            out.append({"id": "allOf[{p:%s},{%s}]" % (a, tag), "doc": doc, "target": "T", "combo": ["p:" + a, tag],
+                        "multiset": ["lift", "req" if req else "opt"] + sorted([a, b])})
+    return out
+
+
 def cases(tier, seed):
     names = list(FRAGS)
     combos = list(itertools.permutations(names, 2))
     if tier != "quick":
         combos += list(itertools.permutations(TRIPLE, 3))
-    out = []
+    out = lifted_cases(tier)
     for combo in combos:
         doc = {"definitions": dict(DEFS, T={"allOf": [FRAGS[n] for n in combo]})}
         out.append({"id": "allOf[%s]" % ",".join(combo), "doc": doc, "target": "T", "combo": list(combo), "multiset": sorted(combo)})
